@@ -3152,6 +3152,25 @@ impl<'a> Visitor<'a, '_, Error> for JSONValidator<'a> {
 
     walk_type_groupname_entry(self, entry)?;
     self.state.type_group_name_entry = None;
+    // The occurrence belongs to this entry only: it must not make the next
+    // group entry optional (`{ ? g, k: int }` requires k).
+    if entry.occur.is_some() {
+      self.state.occurrence = None;
+    }
+
+    Ok(())
+  }
+
+  fn visit_inline_group_entry(
+    &mut self,
+    occur: Option<&Occurrence<'a>>,
+    g: &Group<'a>,
+  ) -> visitor::Result<Error> {
+    walk_inline_group_entry(self, occur, g)?;
+    // see visit_type_groupname_entry
+    if occur.is_some() {
+      self.state.occurrence = None;
+    }
 
     Ok(())
   }
